@@ -16,6 +16,10 @@ matrix = json.load(open(mpath)) if os.path.exists(mpath) else {}
 head = subprocess.run("git -C /repo rev-parse --short HEAD", shell=True, capture_output=True, text=True).stdout.strip()
 for sid in ids:
     prop = sid.split("-")[0]
+    try:
+        prop = json.load(open(os.path.join(root, sid, "meta.json"))).get("check_with", prop)      # a change that another property's check reports
+    except Exception:
+        pass
     wt = f"/tmp/wts/m{sid}"
     os.makedirs("/tmp/wts", exist_ok=True)
     subprocess.run(f"git -C /repo worktree remove --force {wt}", shell=True, capture_output=True)
